@@ -7,7 +7,7 @@ output.  They restate the conclusions of the theorems in Props/C02.lean and Prop
 Nothing here runs the model: the expectation for a linked value is recomputed from the observed
 source values and the observed refs table (`expected`), watcher exactness from the observed refs.
 -/
-import ParamVerif.Refs.Model
+import ParamVerif.Refs.Hooks
 
 namespace ParamVerif.Refs
 
@@ -68,10 +68,10 @@ def firstSome {α} (l : List α) (f : α → Option String) : Option String := l
 /-! ### C08 -/
 
 /-- every live link whose resolved value is valid for the target holds it -/
-def checkTracks (c : Cfg) (s : State) (skip : SrcP → Bool) : Option String :=
+def checkTracks (c : Cfg) (s : State) (skip : SrcP → Bool) (skipLink : Nat → Nat → Bool := fun _ _ => false) : Option String :=
   firstSome (List.range (ntargets s)) fun t =>
     firstSome ((s.refs[t]?).getD []) fun kv =>
-      if (linkDeps c t kv).any skip then none else
+      if (linkDeps c t kv).any skip || skipLink t kv.1 then none else
       -- a reference whose evaluation raises Skip has no value to offer: no obligation
       if skipsRhs c (srcWorld s.src) kv.2 (nestedOf c t kv.1) then none else
       match expected c s.src kv.2 (nestedOf c t kv.1), c.decl t kv.1 with
@@ -147,19 +147,21 @@ def checkOthers (pre post : State) (t : Option Nat) (keys : List Nat) (valuesToo
       else none
 
 /-- a source update reaches exactly the links that depend on it -/
-def checkSrcStep (c : Cfg) (pre post : State) (d : SrcP) (log : List Entry) : Option String :=
+def checkSrcStep (c : Cfg) (pre post : State) (d : SrcP) (log : List Entry) (touched : Nat → List Nat) : Option String :=
   (firstSome (List.range (ntargets pre)) fun t =>
     firstSome (List.range ((pre.tgt[t]?).getD []).length) fun q =>
       let dep := match refOf pre t q with
         | some r => (linkDeps c t (q, r)).contains d
         | none => false
-      if refOf pre t q != refOf post t q then some s!"a source update changed the link of T{t}.p{q}"
+      if (touched t).contains q then none   -- assigned by a user watcher during the dispatch
+      else if refOf pre t q != refOf post t q then some s!"a source update changed the link of T{t}.p{q}"
       else if !dep && tgtVal pre t q != tgtVal post t q then
         some s!"S{d.1}.v{d.2} changed T{t}.p{q}, which does not depend on it"
       else if !dep && log.any (fun e => e.who == .tgt && e.idx == t && e.evs.any (·.1 == q)) then
         some s!"S{d.1}.v{d.2} wrote T{t}.p{q}, which does not depend on it"
       else none)
-  <|> (if pre.watch != post.watch then some "a source update changed the _sync_refs watchers" else none)
+  <|> (if pre.watch != post.watch && (List.range (ntargets pre)).all (fun t => (touched t).isEmpty) then
+        some "a source update changed the _sync_refs watchers" else none)
 
 structure Open where      -- an open `update` context as the oracle remembers it
   t : Nat
@@ -172,20 +174,80 @@ def checkRestored (post : State) (o : Open) : Option String :=
   firstSome o.links fun kl =>
     if refOf post o.t kl.1 != kl.2 then some s!"leaving the update context did not restore the link state of T{o.t}.p{kl.1}" else none
 
+/-- a source update may only raise when one of the values it has to write is invalid for its parameter:
+`_sync_refs` writes under `edit_constant`, so a constant flag (declared or set on the instance) never
+rejects a sync -/
+def checkSrcRaise (c : Cfg) (pre post : State) (d : SrcP) (err : Option String) : Option String :=
+  match err with
+  | some "ValueError" =>
+    let someInvalid := (List.range (ntargets pre)).any fun t =>
+      ((pre.refs[t]?).getD []).any fun kv =>
+        (linkDeps c t kv).contains d && !skipsRhs c (srcWorld post.src) kv.2 (nestedOf c t kv.1) &&
+        (match expected c post.src kv.2 (nestedOf c t kv.1), c.decl t kv.1 with
+          | some v, some dcl => !dcl.valid v
+          | _, _ => false)
+    if someInvalid then none
+    else some s!"the update of S{d.1}.v{d.2} raised ValueError although every value it had to write into a linked parameter is valid"
+  | some "TypeError" =>
+    -- (a readonly parameter can only have become linked through a reference that raised Skip when it was
+    -- assigned — no validation, no guard then; edit_constant does not lift readonly)
+    let readonlyLinked := (List.range (ntargets pre)).any fun t =>
+      ((pre.refs[t]?).getD []).any fun kv =>
+        (linkDeps c t kv).contains d && ((c.decl t kv.1).map (·.readonly)).getD false
+    if readonlyLinked then none
+    else some s!"the update of S{d.1}.v{d.2} raised TypeError: a sync writes under edit_constant, a constant flag never rejects it"
+  | _ => none
+
+/-- parameters of target t that a user watcher (hook) assigned during the step: those hooks whose watched
+parameter was announced to t's watchers -/
+def hookTouched (hooks : List Hook) (t : Nat) (log : List Entry) : List Nat :=
+  (hooks.filter fun h => h.t == t && log.any fun e => e.who == .tgt && e.idx == t && e.evs.any (·.1 == h.a)).map (·.b)
+
+/-- a plain value assigned by a user watcher ends the link of the parameter it assigns — also when the
+watcher runs inside the flush of a sync, unless that very parameter is being written by the same sync -/
+def checkHookEndsLink (hooks : List Hook) (post : State) (log : List Entry) : Option String :=
+  firstSome hooks fun h =>
+    -- the flush entry that delivered p<a> and, after it, the announcement of the hook's own assignment
+    let rec scan : List Entry → Option String
+      | [] => none
+      | e :: rest =>
+        if e.who == .tgt && e.idx == h.t && e.evs.any (·.1 == h.a) && !e.evs.any (·.1 == h.b) &&
+           rest.any (fun e' => e'.who == .tgt && e'.idx == h.t && e'.evs == [(h.b, .int h.k)]) &&
+           (refOf post h.t h.b).isSome then
+          some s!"a watcher of T{h.t}.p{h.a} assigned the plain value {h.k} to T{h.t}.p{h.b}, the assignment was accepted, but p{h.b} is still linked"
+        else scan rest
+    scan log
+
+/-- parameters that a user watcher assigned *while they were being synced themselves* (the flush entry that
+delivered the watched parameter also announces the assigned one): `syncing` makes the setter take the plain
+value for the link's own write, so the link stays and the value diverges (finding) — until the parameter
+is written again.  Returns the updated list of such (target, parameter) pairs after a step. -/
+def hookHoles (hooks : List Hook) (old : List (Nat × Nat)) (log : List Entry) : List (Nat × Nat) :=
+  let written (t p : Nat) : Bool := log.any fun e => e.who == .tgt && e.idx == t && e.evs.any (·.1 == p)
+  let kept := old.filter fun tp => !written tp.1 tp.2
+  let rec scan (h : Hook) : List Entry → Bool
+    | [] => false
+    | e :: rest =>
+      (e.who == .tgt && e.idx == h.t && e.evs.any (·.1 == h.a) && e.evs.any (·.1 == h.b) &&
+        rest.any (fun e' => e'.who == .tgt && e'.idx == h.t && e'.evs == [(h.b, .int h.k)])) || scan h rest
+  kept ++ (hooks.filter fun h => scan h log).map fun h => (h.t, h.b)
+
 inductive Verdict
   | hard (why : String)          -- a violation
   | finding (key why : String)   -- a violation of the full statement that is a known finding of the code
   deriving Repr
 
 /-- C08 on a whole observed run.  Returns the first hard violation, else the first finding. -/
-def specC08 (c : Cfg) (init : State) (steps : List (Op × StepObs)) : Nat × Option Verdict :=
+def specC08 (c : Cfg) (hooks : List Hook) (init : State) (steps : List (Op × StepObs)) : Nat × Option Verdict :=
   let rec go (pre : State) (steps : List (Op × StepObs)) (failed : List SrcP) (stack : List Open)
-      (n : Nat) (fnd : Option Verdict) : Nat × Option Verdict :=
+      (holes : List (Nat × Nat)) (n : Nat) (fnd : Option Verdict) : Nat × Option Verdict :=
     match steps with
     | [] => (n, fnd)
     | (op, o) :: rest =>
       let post := o.st
       let ok := o.err.isNone
+      let tch := fun t => hookTouched hooks t o.log
+      let holes' := hookHoles hooks holes o.log
       let failed' := match op with
         | .srcSet s i _ => if ok then failed else (s, i) :: failed
         | _ => failed
@@ -196,7 +258,8 @@ def specC08 (c : Cfg) (init : State) (steps : List (Op × StepObs)) : Nat × Opt
         <|> (match op with
           | .srcSet s i v =>
             (if ((post.src[s]?).bind (·[i]?)) != some v then some "the source does not hold the assigned value" else none)
-            <|> (if ok then checkSrcStep c pre post (s, i) o.log else none)
+            <|> checkSrcRaise c pre post (s, i) o.err
+            <|> (if ok then checkSrcStep c pre post (s, i) o.log tch else none)
           | .setCls t p _ =>
             -- (the instance may be reading the class default of p: a link that has not delivered a value yet)
             checkOthers pre post (some t) [p] false
@@ -204,18 +267,21 @@ def specC08 (c : Cfg) (init : State) (steps : List (Op × StepObs)) : Nat × Opt
                   some "a class-level assignment changed links, watchers or sources" else none)
           | .ctxExit =>
             (match stack with
-              | top :: _ => (if ok then checkRestored post top else none) <|> checkOthers pre post (some top.t) top.keys true
+              | top :: _ =>
+                (if ok then checkRestored post { top with links := top.links.filter fun kl => !(tch top.t).contains kl.1 } else none)
+                <|> checkOthers pre post (some top.t) (top.keys ++ tch top.t) true
               | [] => none)
             <|> (if pre.src != post.src then some "sources changed" else none)
           | _ =>
             match keysOf op with
             | some (t, kvs) =>
-              (if ok then checkAssigned c post t kvs else none)
-              <|> checkConstants c pre post t kvs
-              <|> checkOthers pre post (some t) (kvs.map (·.1)) true
+              (if ok then checkAssigned c post t (kvs.filter fun kv => !(tch t).contains kv.1) else none)
+              <|> checkConstants c pre post t (kvs.filter fun kv => !(tch t).contains kv.1)
+              <|> checkOthers pre post (some t) (kvs.map (·.1) ++ tch t) true
               <|> (if pre.src != post.src then some "an assignment to a target changed a source" else none)
             | none => none)
-        <|> checkTracks c post (fun d => failed'.contains d)
+        <|> (if ok then checkHookEndsLink hooks post o.log else none)
+        <|> checkTracks c post (fun d => failed'.contains d) (fun t p => holes'.contains (t, p))
         <|> checkWatched c post
         -- the watchers of every target sit exactly on the dependencies of its live links
         <|> ((List.range (ntargets post)).findSome? fun t => (leftover c post t).map fun d =>
@@ -226,22 +292,24 @@ def specC08 (c : Cfg) (init : State) (steps : List (Op × StepObs)) : Nat × Opt
       | some why => (n, some (.hard s!"step {n}: {why}"))
       | none =>
         let fnd1 : Option Verdict := fnd <|>
-          ((checkTracks c post (fun _ => false)).map fun why =>
+          ((checkTracks c post (fun _ => false) (fun t p => holes'.contains (t, p))).map fun why =>
             .finding "failed-sync-leaves-valid-links-stale" s!"step {n}: {why} (a source update raised earlier from inside _sync_refs)")
+          <|> ((checkTracks c post (fun d => failed'.contains d)).map fun why =>
+            .finding "watcher-assignment-during-own-sync-keeps-link" s!"step {n}: {why} (a watcher assigned it a plain value while it was being synced: the link was kept)")
         let stack' := match op, ok with
           | .ctxEnter t kvs, true =>
             let ks := (dedupKeys kvs).map (·.1)
             { t := t, keys := ks, links := ks.map fun k => (k, refOf pre t k) } :: stack
           | .ctxExit, _ => stack.drop 1
           | _, _ => stack
-        go post rest failed' stack' (n + 1) fnd1
+        go post rest failed' stack' holes' (n + 1) fnd1
   let initHard : Option String :=
     checkTracks c init (fun _ => false) <|> checkWatched c init <|> checkValues c init
     <|> ((List.range (ntargets init)).findSome? fun t => (leftover c init t).map fun d =>
           s!"after construction T{t} has a _sync_refs watcher on S{d.1}.v{d.2} that no link needs")
   match initHard with
   | some why => (0, some (.hard s!"after construction: {why}"))
-  | none => go init steps [] [] 0 none
+  | none => go init steps [] [] [] 0 none
 
 /-! ### C02 -/
 
@@ -259,7 +327,9 @@ def rejected (o : StepObs) : Bool := o.err == some "ValueError" || o.err == some
 watcher of t was told about it, or when it is a reference whose evaluation raised Skip (the link is
 made, nothing is stored and nothing announced) -/
 def appliedPrefix (c : Cfg) (pre : State) (t : Nat) (kvs : List (Nat × Rhs)) (log : List Entry) : Nat :=
-  let evKeys := (log.filter (fun e => e.who == .tgt && e.idx == t)).flatMap (·.evs.map (·.1))
+  -- the flush of the update itself: the first call of t's universal watcher (later ones come from user
+  -- watchers that assign)
+  let evKeys := ((log.filter (fun e => e.who == .tgt && e.idx == t)).take 1).flatMap (·.evs.map (·.1))
   (kvs.takeWhile fun kv =>
     evKeys.contains kv.1 ||
     (((c.decl t kv.1).map (·.allowRefs)).getD false && !(linkDeps c t kv).isEmpty &&
@@ -278,7 +348,7 @@ def twinOps (c : Cfg) : State → List (Op × StepObs) → List Op
     else op) :: twinOps c o.st rest
 
 /-- C02 on an observed run and on the observed run of its twin history -/
-def specC02 (c : Cfg) (init : State) (steps : List (Op × StepObs)) (twin : List StepObs) : Nat × Option String :=
+def specC02 (c : Cfg) (hooks : List Hook) (init : State) (steps : List (Op × StepObs)) (twin : List StepObs) : Nat × Option String :=
   let rec go (pre : State) (steps : List (Op × StepObs)) (twin : List StepObs) (n k : Nat) : Nat × Option String :=
     match steps, twin with
     | [], _ => (k, none)
@@ -297,6 +367,7 @@ def specC02 (c : Cfg) (init : State) (steps : List (Op × StepObs)) (twin : List
             | some (t, kvs) =>
               (firstSome (kvs.drop (appliedPrefix c pre t kvs o.log)) fun kv =>
                 if (kvs.take (appliedPrefix c pre t kvs o.log)).any (·.1 == kv.1) then none
+                else if (hookTouched hooks t o.log).contains kv.1 then none     -- assigned by a user watcher in the flush
                 else if refOf pre t kv.1 != refOf o.st t kv.1 then some s!"the rejected update changed the link of its rejected key p{kv.1}"
                 else if tgtVal pre t kv.1 != tgtVal o.st t kv.1 then some s!"the rejected update changed the value of its rejected key p{kv.1}"
                 else none)
